@@ -18,7 +18,7 @@ func init() {
 		r := r
 		name := fmt.Sprintf("S-trigger-r%d", r)
 		register(&Scenario{Name: name, Props: []string{"C19"}, MaxFires: 3, Horizon: 5000, Body: func(x *X) { sTrigger(x, r) }})
-		quickBound[name], thoroughBound[name] = 2, 4
+		quickBound[name], thoroughBound[name] = 5, 7
 	}
 }
 
